@@ -1,6 +1,7 @@
 (** C19 — Generated keys and parameters are well-formed for every randomness stream. *)
 From ZK Require Import Model.Field Model.Zq Model.QBls Model.Pedersen Model.PS Model.Range Model.Keygen
   Proofs.PSProofs Proofs.KeygenProofs.
+From ZK Require Import Model.Abacus Model.Customer Model.Merchant Model.Protocol Proofs.ProtocolProofs.
 Local Open Scope fld_scope.
 
 Theorem C19_keygen_wf : forall (K : Fld) n (g1s scalars g2s : list K) sk pk,
@@ -29,6 +30,15 @@ Theorem C19_range_params_new_valid : forall (K : Fld) (sk : skey K) (pk : pkey K
   validate (range_params_new sk pk hs) = true /\ length (rp_sigs (range_params_new sk pk hs)) = length hs.
 Proof. exact range_params_new_valid. Qed.
 
+(** [merchant::Config::new] as a whole: for every choice of streams in which each generator finds enough non-identity /
+    non-zero draws, the generated configuration is fit for honest runs ([mconfig_ok]: consistent key with non-identity g1, valid
+    range parameters with 128 digit signatures), its revocation-commitment generators are not the identity, and the key
+    lengths are 5 and 1 - so the whole-run theorems of C04 apply to generated configurations *)
+Theorem C19_generated_merchant_config_fit_for_honest_runs : forall (K : Fld) g1s scalars g2s rev_draws rg1s rscalars rg2s bases (m : mconfig K),
+  merchant_config_new g1s scalars g2s rev_draws rg1s rscalars rg2s bases = Some m ->
+  mconfig_ok K m /\ m_hr m <> f0 /\ m_gr m <> f0 /\ length (pk_y1s (m_pk m)) = 5%nat /\ length (pk_y2s (rp_pk (m_rp m))) = 1%nat.
+Proof. exact generated_config_ok. Qed.
+
 Example C19_nonvacuous :
   match keygen_stream 2 [fq 0; fq 11] [fq 0; fq 0; fq 17; fq 0; fq 19; fq 23; fq 99] [fq 13] with
   | Some (sk, pk) => sk_x sk = fq 17 /\ sk_ys sk = [fq 19; fq 23] /\ pk_wf pk = true
@@ -41,3 +51,4 @@ Print Assumptions C19_nonzero_draws_skip_exactly_the_zeros.
 Print Assumptions C19_pedersen_new_wf.
 Print Assumptions C19_range_params_new_valid.
 Print Assumptions C19_nonvacuous.
+Print Assumptions C19_generated_merchant_config_fit_for_honest_runs.
